@@ -238,6 +238,35 @@ def plain_job(job):
     return out
 
 
+def stepfn_job(job):
+    """A field equation that switches on exactly at a grid time (f = 1 for t > t_g): both methods must evaluate their Heun
+    stages at the same grid times - bit for bit, or the switch is seen one step apart."""
+    import oqupy
+    t0, dt, g = job
+    tg = float(repr(round(t0 + g * dt, 10)))
+    sx = np.array([[0, 1], [1, 0]], dtype=complex)
+    rho = np.array([[0.6, 0.2], [0.2, 0.4]], dtype=complex)
+
+    def mk():
+        fs = oqupy.TimeDependentSystemWithField(lambda t, a: 0.5 * sx)
+        return oqupy.MeanFieldSystem([fs], field_eom=lambda t, st, a: 1.0 if t > tg else 0.0)
+    try:
+        n = g + 3
+        corr = probes.make_probe_sd(probes.probe_weights(1, 8), dt)
+        bath = oqupy.Bath(np.zeros((2, 2)), corr)
+        params = oqupy.TempoParameters(dt=dt, epsrel=1e-12, dkmax=1)
+        a = oqupy.MeanFieldTempo(mk(), [bath], params, [rho.copy()], 0.0 + 0j, t0).compute(t0 + n * dt + dt / 4, progress_type="silent")
+        b = oqupy.compute_dynamics_with_field(mk(), 0.0 + 0j, dt=dt, num_steps=n, initial_state_list=[rho.copy()], start_time=t0,
+                                              progress_type="silent")
+    except Exception as ex:  # pylint: disable=broad-except
+        return [{"what": "exception", "detail": "%s: %s" % (type(ex).__name__, str(ex)[:150])}]
+    fa, fb = np.array(a.fields), np.array(b.fields)
+    if fa.shape != fb.shape or np.max(np.abs(fa - fb)) > 1e-12:
+        return [{"what": "methods-see-a-switch-at-a-grid-time-differently", "MeanFieldTempo": [str(x) for x in fa],
+                 "compute_dynamics_with_field": [str(x) for x in fb]}]
+    return []
+
+
 def run(ctx):
     quick = ctx.tier == "quick"
     coefs = [(1, 2, 0, 0, 0), (0.5, -1, 0, 0, 0), (0, 1, 1, 0, 0), (1, 0, 2, 0, -1), (0.5, 1, 1, 1, 0), (0, 0, 1, 0, 1),
@@ -274,6 +303,11 @@ def run(ctx):
         ctx.case({"field_independent_vs_tempo": {"t0": j[1], "subdiv_limit": "None" if len(j) > 2 else "default"}}, nontrivial=True)
         for x in mm:
             ctx.violation("C09:plain:%s" % x["what"], "%s: %s" % (j, x), {"plain": list(j)})
+    sjobs = [(t0, dt, g) for t0 in (0.0, 0.3, -0.7) for dt in (0.1, 0.2, 0.05) for g in (1, 2, 3)]
+    for j, mm in zip(sjobs, core.pmap(stepfn_job, sjobs)):
+        ctx.case({"switch_at_grid_time": {"t0": j[0], "dt": j[1], "step": j[2]}}, nontrivial=True)
+        for x in mm:
+            ctx.violation("C09:switch:%s" % x["what"], "%s: %s" % (j, x), {"stepfn": list(j)})
     ctx.rule = ("every configuration of MeanField.tla (7 equations of motion x 3 start times x 2 initial fields x 3 system "
                 "lists x (dt, steps)) x {MeanFieldTempo, compute_dynamics_with_field record_all True/False}; plus "
                 "differential agreement of the two methods for field-dependent Hamiltonians with probe-bath process tensors")
@@ -291,7 +325,9 @@ def replay(ctx, rep):
         return
     core._init_worker()
     c = rep["case"]
-    if "agreement" in c:
+    if "stepfn" in c:
+        mm = stepfn_job(tuple(c["stepfn"]))
+    elif "agreement" in c:
         mm = agreement_job(tuple(c["agreement"]))
     else:
         mm = run_case((c["case"], c["method"], c.get("warm", False)))
